@@ -94,6 +94,100 @@ Proof.
   apply H. intros k0. reflexivity.
 Qed.
 
+(* ---- a process death while config.lisp is updated ----
+   updateConfigFile builds the whole text and hands it to os.WriteFile: open with O_CREATE|O_TRUNC, one
+   write, close.  Before repo fix C20-3 the file written was config.lisp itself (update_inplace); after it
+   the text goes to config.lisp.tmp, which is then renamed over config.lisp (update_atomic).  The content
+   of a file is what it evaluates to (the settings in it); a file just opened with O_TRUNC is empty. *)
+Record cdir := { c_cfg : option (list (var * Z)); c_tmp : option (list (var * Z)) }.
+Inductive cprim := COpen (tmp : bool) | CWrite (tmp : bool) (c : list (var * Z)) | CRename.
+Definition cexec (d : cdir) (x : cprim) : cdir :=
+  match x with
+  | COpen false => {| c_cfg := Some []; c_tmp := c_tmp d |}
+  | COpen true => {| c_cfg := c_cfg d; c_tmp := Some [] |}
+  | CWrite false c => match c_cfg d with Some c0 => {| c_cfg := Some (c0 ++ c); c_tmp := c_tmp d |} | None => d end
+  | CWrite true c => match c_tmp d with Some c0 => {| c_cfg := c_cfg d; c_tmp := Some (c0 ++ c) |} | None => d end
+  | CRename => match c_tmp d with Some c => {| c_cfg := Some c; c_tmp := None |} | None => d end
+  end.
+Definition update_inplace (c : list (var * Z)) : list cprim := [COpen false; CWrite false c].
+Definition update_atomic (c : list (var * Z)) : list cprim := [COpen true; CWrite true c; CRename].
+Definition ccrash (d : cdir) (xs : list cprim) (k : nat) : cdir := fold_left cexec (firstn k xs) d.
+(* what the next session evaluates: a missing config.lisp is created with the header only *)
+Definition cload (d : cdir) : list (var * Z) := match c_cfg d with Some c => c | None => [] end.
+
+(* the repaired update: whatever the step the process dies at (and whatever an earlier death left in
+   config.lisp.tmp), the next session evaluates the old or the new file *)
+Lemma update_atomic_crash d c k : cload (ccrash d (update_atomic c) k) = cload d \/ cload (ccrash d (update_atomic c) k) = c.
+Proof.
+  unfold ccrash, update_atomic. destruct k as [|[|[|k]]]; cbn [firstn fold_left cexec c_cfg c_tmp app].
+  - left; reflexivity.
+  - left; reflexivity.
+  - left; reflexivity.
+  - right. destruct k; reflexivity.
+Qed.
+
+(* every history of sessions, any number of settings made in the current one, a death at any step of the
+   next update: the session after it starts with every setting as before or every setting as after it *)
+Lemma file_sessions sessions : forall m s, (forall k, look (file m) k = look s k) ->
+  forall k, look (file (fold_left m_session sessions m)) k = look (fold_left s_session sessions s) k.
+Proof.
+  induction sessions as [|ops ss IH]; intros m s Hf k0; [apply Hf|]. cbn [fold_left]. apply IH.
+  intros k1. apply (inv_session m s ops Hf).
+Qed.
+
+Theorem settings_crash_consistent : forall sessions ops k x t j,
+  let m := fold_left (fun m o => m_set m (fst o) (snd o)) ops (m_start (fold_left m_session sessions m_init)) in
+  let s := s_session (fold_left s_session sessions []) ops in
+  let d := ccrash {| c_cfg := Some (file m); c_tmp := t |} (update_atomic (file (m_set m k x))) j in
+  (forall k', look (cload d) k' = look s k') \/ (forall k', look (cload d) k' = look (upd s k x) k').
+Proof.
+  intros sessions ops k x t j m s d.
+  assert (Hi : inv m s).
+  { unfold m, s, s_session. apply fold_inv, inv_start. apply file_sessions. intros k0. reflexivity. }
+  destruct (update_atomic_crash {| c_cfg := Some (file m); c_tmp := t |} (file (m_set m k x)) j) as [H|H];
+    fold d in H; rewrite H.
+  - left. intros k'. cbn [cload c_cfg]. apply Hi.
+  - right. intros k'. apply (inv_set m s k x Hi).
+Qed.
+
+(* the unrepaired update: a death between the truncating open and the write leaves an empty config.lisp:
+   the next session starts with the defaults - neither the settings before nor those after *)
+Lemma settings_crash_inplace_refuted :
+  let old := [(0%N, 5%Z)] in let new := [(1%N, 7%Z); (0%N, 5%Z)] in
+  let d := ccrash {| c_cfg := Some old; c_tmp := None |} (update_inplace new) 1 in
+  look (cload d) 0%N = None /\ look old 0%N = Some 5%Z /\ look new 0%N = Some 5%Z.
+Proof. vm_compute. repeat split. Qed.
+
+(* per run: the settings of one variable observed in a fresh session after a death on entering each step of
+   an update from `before` to `after`, with the kind of step seen by strace (0 open of config.lisp, 1 open of
+   config.lisp.tmp, 2 write to config.lisp, 3 write to config.lisp.tmp, 4 rename): the steps are those of
+   update_atomic and every observation is the model's, i.e. before or after *)
+Definition cprim_kind (x : cprim) : N :=
+  match x with COpen false => 0 | COpen true => 1 | CWrite false _ => 2 | CWrite true _ => 3 | CRename => 4 end%N.
+Definition opt_eqb (a b : option Z) : bool :=
+  match a, b with Some x, Some y => Z.eqb x y | None, None => true | _, _ => false end.
+Definition crash_case := (list (var * Z) * list (var * Z) * list (N * list (var * option Z)))%type.
+Definition obs_matches (c : list (var * Z)) (o : list (var * option Z)) : bool :=
+  forallb (fun p => opt_eqb (look c (fst p)) (snd p)) o.
+Fixpoint crash_steps_ok (d : cdir) (xs : list cprim) (k : nat) (obs : list (N * list (var * option Z))) : bool :=
+  match obs with
+  | [] => Nat.eqb k (List.length xs)
+  | (kind, o) :: obs' =>
+      (match nth_error xs k with Some x => N.eqb (cprim_kind x) kind | None => false end) &&
+      obs_matches (cload (ccrash d xs k)) o && crash_steps_ok d xs (S k) obs'
+  end.
+Definition check_crash_case (c : crash_case) : N :=
+  let '(before, after, obs) := c in
+  let sok := forallb (fun p => obs_matches before (snd p) || obs_matches after (snd p)) obs in
+  let agree := crash_steps_ok {| c_cfg := Some before; c_tmp := None |} (update_atomic after) 0 obs in
+  if agree then (if sok then 0 else 3) else if sok then 1 else 2.
+Fixpoint check_crash_from (i : N) (cs : list crash_case) : list (N * N) :=
+  match cs with
+  | [] => []
+  | c :: cs' => let r := check_crash_case c in (if N.eqb r 0 then [] else [(i, r)]) ++ check_crash_from (N.succ i) cs'
+  end.
+Definition check_settings_crash := check_crash_from 0%N.
+
 (* ---- per-run comparison: what each session loaded, and what it then set ---- *)
 Definition val_eqb (a b : option Z) : bool :=
   match a, b with Some x, Some y => Z.eqb x y | None, None => true | _, _ => false end.
